@@ -151,10 +151,10 @@ fn exec_live(fams_cfg: Vec<Fam>, po: Vec<u8>, delay: bool) -> String {
     let peer = match OpenMessage::from_octets(Bytes::from(po)) { Ok(p) => p, Err(_) => return "err".into() };
     let rt = tokio::runtime::Builder::new_current_thread().enable_all().build().unwrap();
     rt.block_on(async move {
-        let listener = tokio::net::TcpListener::bind("127.0.0.1:0").await.unwrap();
+        let listener = crate::retry_io!(tokio::net::TcpListener::bind("127.0.0.1:0").await);
         let addr = listener.local_addr().unwrap();
-        let _client = tokio::net::TcpStream::connect(addr).await.unwrap();
-        let (server, _) = listener.accept().await.unwrap();
+        let _client = crate::retry_io!(tokio::net::TcpStream::connect(addr).await);
+        let (server, _) = crate::retry_io!(listener.accept().await);
         let (rd, _wr) = server.into_split();
         let (tx, mut rx) = tokio::sync::mpsc::channel::<SessMsg>(64);
         let (_cmd_tx, cmd_rx) = tokio::sync::mpsc::channel::<Command>(16);
@@ -242,10 +242,10 @@ fn exec_live2(fams_cfg: Vec<Fam>, po1: Vec<u8>, po2: Vec<u8>) -> String {
     let rt = tokio::runtime::Builder::new_current_thread().enable_all().build().unwrap();
     rt.block_on(async move {
         use tokio::io::AsyncWriteExt;
-        let listener = tokio::net::TcpListener::bind("127.0.0.1:0").await.unwrap();
+        let listener = crate::retry_io!(tokio::net::TcpListener::bind("127.0.0.1:0").await);
         let addr = listener.local_addr().unwrap();
-        let _client1 = tokio::net::TcpStream::connect(addr).await.unwrap();
-        let (server, _) = listener.accept().await.unwrap();
+        let _client1 = crate::retry_io!(tokio::net::TcpStream::connect(addr).await);
+        let (server, _) = crate::retry_io!(listener.accept().await);
         let (rd, _wr) = server.into_split();
         let (tx, mut rx) = tokio::sync::mpsc::channel::<SessMsg>(64);
         let (_cmd_tx, cmd_rx) = tokio::sync::mpsc::channel::<Command>(16);
@@ -267,8 +267,8 @@ fn exec_live2(fams_cfg: Vec<Fam>, po1: Vec<u8>, po2: Vec<u8>) -> String {
         while rx.try_recv().is_ok() {}
         while pdu_rx.try_recv().is_ok() {}
         // connection #2: the peer connects again and sends its new OPEN; the stream goes to the same Session
-        let mut client2 = tokio::net::TcpStream::connect(addr).await.unwrap();
-        let (server2, _) = listener.accept().await.unwrap();
+        let mut client2 = crate::retry_io!(tokio::net::TcpStream::connect(addr).await);
+        let (server2, _) = crate::retry_io!(listener.accept().await);
         let _ = client2.write_all(&po2).await;
         let (rd2, _wr2) = server2.into_split();
         match tokio::time::timeout(std::time::Duration::from_secs(5), s.attach_stream(rd2)).await { Ok(()) => {}, Err(_) => return "L2 attach-hang".to_string() }
